@@ -8,6 +8,13 @@ Case kinds (every case is JSON; Python values outside JSON travel as {"__py__": 
   json   : one column -> FlatColumn.from_json(c.to_json())  model: Persist.jsonRoundTrip
   flat   : one column of any column class -> to_flatcolumn()  (the eleven attributes)
                                                             model: Persist.toFlat
+  flat2  : flatten, assign attributes, flatten again (the second flat column shows the current attributes)
+  snap   : sequences on one schema: to_dict -> from_dict -> modify the schema and the first restored schema ->
+           the dictionary is unchanged (to_dict returns a snapshot) and loading it again restores the schema as it
+           was written; modifying a dictionary to_dict returned leaves the schema alone; to_dict of the restored
+           schema is the dictionary again                    model: Persist.fromDict (toDict s) on the schema as written
+  json2  : one column: to_json -> from_json -> modify both columns -> from_json of the same JSON again restores
+           the column as written, and it serialises to the same JSON   model: Persist.jsonRoundTrip
   init   : keyword arguments -> FlatColumn(**kw), then FlatColumn(**attributes of it) again
            (correspondence only: the constructor's normalisation and its idempotence)
                                                             model: Persist.init, init ∘ rawOf
@@ -16,6 +23,7 @@ The oracle is evaluated on the implementation's own objects; the model sees the 
 implementation constructed it* (so the casts of defaults, C07's subject, are not re-modelled), except
 for `init`, whose raw defaults stay inside the small domain Model/PersistPy.lean models.
 """
+import copy
 import dataclasses
 import datetime
 import decimal
@@ -155,7 +163,7 @@ def kwargs_of(spec):
         elif k in ("default", "highest_value", "lowest_value"):
             kw[k] = to_py(v)
         else:
-            kw[k] = v
+            kw[k] = copy.deepcopy(v)  # the column must not share its lists with the case
     return kw
 
 
@@ -335,6 +343,30 @@ def run_schema(case):
                               {"op": "dict", "col": i, "attr": attr, "orig": show(x), "got": show(y), "orig_class": type(x).__name__}))
         if not fails and not (r == s):
             fails.append(("dict: restored schema != original (dataclass equality)", {"op": "dict"}))
+        if not fails:
+            # use -> use again: the same dictionary loads to the same schema a second time, the restored schema is
+            # written as the same dictionary, and flattening a restored column shows the original's attributes
+            try:
+                with warnings.catch_warnings():
+                    warnings.simplefilter("ignore")
+                    r_again = S.RelationSchema.from_dict(d)
+                    d_again = r.to_dict()
+                    flats = [c.to_flatcolumn() for c in r.columns]
+            except Exception as e:
+                cls = type(e).__name__
+                fails.append(("dict: a second from_dict / to_dict / to_flatcolumn on the restored schema raised %s" % cls,
+                              {"op": "dict", "raised": cls, "message": str(e)[:200]}))
+            else:
+                for what, x, y in _schema_diffs(s, r_again):
+                    fails.append(("dict: loading the same dictionary a second time gives another schema",
+                                  {"op": "dict", "attr": what, "orig": show(x), "got": show(y)}))
+                    break
+                if not same_value(d_again, d):
+                    fails.append(("dict: the restored schema is written as another dictionary", {"op": "dict", "orig": show(d), "got": show(d_again)}))
+                for i, (a, f) in enumerate(zip(s.columns, flats)):
+                    for attr, x, y in attr_diffs(a, f, FLAT_LISTED):
+                        fails.append(("flat: flattening a restored column changes %s" % attr,
+                                      {"op": "dict+flat", "col": i, "attr": attr, "orig": show(x), "got": show(y)}))
     # behaviour
     d0, d1 = describe(s), describe(r)
     if d0 != d1:
@@ -445,6 +477,196 @@ def run_flat2(case):
     return fails, ["ok", enc_col(f2)], line, "flat"
 
 
+def _build_schema(case):
+    S, _ = _orso()
+    return S.RelationSchema(name=case["name"], aliases=list(case["aliases"]), columns=[construct(sp) for sp in case["cols"]],
+                            primary_key=case["pk"])
+
+
+def _schema_diffs(orig, got):
+    """[(what, original, restored)]: the schema's own attributes, then every listed attribute of every column"""
+    out = []
+    for a in ("name", "aliases", "primary_key"):
+        if not same_value(getattr(orig, a), getattr(got, a)):
+            out.append(("schema." + a, getattr(orig, a), getattr(got, a)))
+    if len(orig.columns) != len(got.columns):
+        out.append(("number of columns", len(orig.columns), len(got.columns)))
+        return out
+    for i, (a, b) in enumerate(zip(orig.columns, got.columns)):
+        for attr, x, y in attr_diffs(a, b, LISTED):
+            out.append(("columns[%d].%s" % (i, attr), x, y))
+    return out
+
+
+def _edit_schema(s, edit, donors):
+    """modify a schema in place: lists are appended to (not replaced), attributes assigned"""
+    if "aliases_append" in edit:
+        s.aliases.append(edit["aliases_append"])
+    if "pk" in edit:
+        s.primary_key = edit["pk"]
+    if "name" in edit:
+        s.name = edit["name"]
+    i = edit.get("col")
+    if i is not None and i < len(s.columns):
+        c = s.columns[i]
+        for k in edit.get("then", {}):
+            setattr(c, k, getattr(donors[i], k))
+        if "col_alias_append" in edit and isinstance(c.aliases, list):
+            c.aliases.append(edit["col_alias_append"])
+    if edit.get("drop_last") and s.columns:
+        s.columns.pop()
+
+
+def _edit_restored(r, edit, donors):
+    """modify a restored schema by assignment only (its lists may be the dictionary's own lists)"""
+    if "aliases_append" in edit:
+        r.aliases = list(r.aliases) + [edit["aliases_append"]]
+    if "pk" in edit:
+        r.primary_key = edit["pk"]
+    if "name" in edit:
+        r.name = edit["name"]
+    i = edit.get("col")
+    if i is not None and i < len(r.columns):
+        c = r.columns[i]
+        for k in edit.get("then", {}):
+            setattr(c, k, getattr(donors[i], k))
+        if "col_alias_append" in edit and isinstance(c.aliases, list):
+            c.aliases = list(c.aliases) + [edit["col_alias_append"]]
+    if edit.get("drop_last") and r.columns:
+        r.columns = r.columns[:-1]
+
+
+def _edit_dict(d, edit):
+    """modify the dictionary to_dict returned, in place"""
+    if isinstance(d.get("aliases"), list):
+        d["aliases"].append(edit.get("aliases_append", "zz"))
+    d["primary_key"] = edit.get("pk", "zz")
+    d["name"] = edit.get("name", "zz")
+    cols = d.get("columns")
+    if isinstance(cols, list) and cols:
+        c0 = cols[min(edit.get("col") or 0, len(cols) - 1)]
+        if isinstance(c0, dict):
+            if isinstance(c0.get("aliases"), list):
+                c0["aliases"].append(edit.get("col_alias_append", "zz"))
+            if isinstance(c0.get("origin"), list):
+                c0["origin"].append("zz")
+            c0["nullable"] = not c0.get("nullable")
+            c0["type"] = "INTEGER" if c0.get("type") != "INTEGER" else "VARCHAR"
+        cols.pop()
+
+
+def run_snap(case):
+    S, _ = _orso()
+    edit = case["edit"]
+    fails = []
+    with warnings.catch_warnings():
+        warnings.simplefilter("ignore")
+        s = _build_schema(case)
+        orig = _build_schema(case)  # an equal schema built independently: the state at the time of writing
+        i = edit.get("col")
+        donors = {}
+        if i is not None and i < len(case["cols"]):
+            donors[i] = construct(dict(case["cols"][i], **edit.get("then", {})))
+        encs = [enc_col(c) for c in orig.columns]
+        line = None if has_other(encs) else "C16 dict " + wire.line(case["name"], list(case["aliases"]), case["pk"], encs, "fresh")
+        try:
+            d = s.to_dict()
+            snapshot = copy.deepcopy(d)
+            r1 = S.RelationSchema.from_dict(d)
+            first = _schema_diffs(orig, r1)
+            if first:
+                # the plain round trip already differs: that is the `schema` kind's business (and the known findings')
+                return [], None, None, None
+            d_again = r1.to_dict()
+            if not same_value(d_again, snapshot):
+                fails.append(("dict: the restored schema is written as another dictionary", {"op": "snap", "orig": show(snapshot), "got": show(d_again)}))
+            _edit_schema(s, edit, donors)
+            _edit_restored(r1, edit, donors)
+            if not same_value(d, snapshot):
+                fails.append(("dict: the dictionary to_dict returned changed when the schema was modified afterwards",
+                              {"op": "snap", "orig": show(snapshot), "got": show(d)}))
+            r2 = S.RelationSchema.from_dict(copy.deepcopy(snapshot) if fails else d)
+            for what, x, y in _schema_diffs(orig, r2):
+                fails.append(("dict: loading the dictionary again (after the schema and the first restored schema were modified) "
+                              "does not restore the schema as it was written", {"op": "snap", "attr": what, "orig": show(x), "got": show(y)}))
+                break
+            if not fails and not (r2 == orig) and not any(_has_nan(c) for c in orig.columns):
+                fails.append(("dict: restored schema != original (dataclass equality)", {"op": "snap"}))
+            # write -> modify -> write again: the second dictionary describes the schema as it is now
+            r3 = S.RelationSchema.from_dict(s.to_dict())
+            for what, x, y in _schema_diffs(s, r3):
+                fails.append(("dict: after the schema was modified, writing and loading it again does not give the modified schema",
+                              {"op": "snap", "attr": what, "orig": show(x), "got": show(y)}))
+                break
+            # the other direction: the dictionary is the caller's to modify
+            s2 = _build_schema(case)
+            d2 = s2.to_dict()
+            _edit_dict(d2, edit)
+            for what, x, y in _schema_diffs(orig, s2):
+                fails.append(("dict: modifying the dictionary to_dict returned changes the schema",
+                              {"op": "snap", "attr": what, "orig": show(x), "got": show(y)}))
+                break
+        except Exception as e:
+            cls = type(e).__name__
+            fails.append(("dict: a to_dict / from_dict sequence raised %s" % cls, {"op": "snap", "raised": cls, "message": str(e)[:200]}))
+            return fails, None, None, None
+    from orso.types import OrsoTypes
+
+    def vty(t):
+        if t is OrsoTypes._MISSING_TYPE:
+            return None
+        e = enc_ty(t)
+        return "0" if e == 0 and not isinstance(e, bool) else e
+
+    impl = [["ok", r2.name, r2.aliases, r2.primary_key, [enc_col(c) for c in r2.columns]], [[c.name, vty(c.type), c.nullable] for c in r2.columns], None]
+    return fails, impl, line, "dict"
+
+
+def run_json2(case):
+    S, _ = _orso()
+    fails = []
+    with warnings.catch_warnings():
+        warnings.simplefilter("ignore")
+        c = construct(case["col"])
+        orig = construct(case["col"])
+        donor = construct(dict(case["col"], **case["then"]))
+        enc = enc_col(orig)
+        line = None if has_other(enc) else "C16 json " + wire.line(enc, "fresh")
+        try:
+            j = c.to_json()
+            r1 = S.FlatColumn.from_json(j)
+        except Exception:
+            return [], None, None, None  # the `json` kind reports it (known findings K01)
+        if attr_diffs(orig, r1, LISTED):
+            return [], None, None, None  # the `json` kind reports it (known findings K02)
+        try:
+            j1 = r1.to_json()
+            if j1 != j:
+                fails.append(("json: the restored column is written as other JSON", {"op": "json2", "orig": show(j), "got": show(j1)}))
+            for k in case["then"]:
+                setattr(c, k, getattr(donor, k))
+                setattr(r1, k, getattr(donor, k))
+            r2 = S.FlatColumn.from_json(j)
+        except Exception as e:
+            cls = type(e).__name__
+            fails.append(("json: a to_json / from_json sequence raised %s" % cls, {"op": "json2", "raised": cls, "message": str(e)[:200]}))
+            return fails, None, None, None
+        try:
+            r3 = S.FlatColumn.from_json(c.to_json())
+        except Exception:
+            r3 = None  # the assigned values may be ones JSON does not carry (K01)
+        if r3 is not None:
+            for attr, x, y in attr_diffs(c, r3, [k for k in ("nullable", "aliases", "description", "null_count") if k in case["then"]]):
+                fails.append(("json: after the column was modified, writing and loading it again does not give the modified column",
+                              {"op": "json2", "attr": attr, "orig": show(x), "got": show(y)}))
+                break
+        for attr, x, y in attr_diffs(orig, r2, LISTED):
+            fails.append(("json: loading the JSON again (after the column and the first restored column were modified) does not restore "
+                          "the column as it was written", {"op": "json2", "attr": attr, "orig": show(x), "got": show(y)}))
+            break
+    return fails, ["ok", enc_col(r2)], line, "json"
+
+
 def run_init(case):
     """correspondence only: FlatColumn(**kw) and the re-construction from its attributes"""
     S, _ = _orso()
@@ -468,15 +690,17 @@ def run_init(case):
     return [], [["ok", enc_col(c)], second], line, "init"
 
 
-RUNNERS = {"schema": run_schema, "json": run_json, "flat": run_flat, "flat2": run_flat2, "init": run_init}
+RUNNERS = {"schema": run_schema, "json": run_json, "flat": run_flat, "flat2": run_flat2, "snap": run_snap, "json2": run_json2,
+           "init": run_init}
+EDIT_KEYS = {"aliases_append", "pk", "name", "col", "then", "col_alias_append", "drop_last"}
 
 
 def valid_case(c):
     try:
         if not isinstance(c, dict) or c.get("kind") not in RUNNERS:
             return False
-        specs = c["cols"] if c["kind"] == "schema" else [c["col"]]
-        if c["kind"] == "schema":
+        specs = c["cols"] if c["kind"] in ("schema", "snap") else [c["col"]]
+        if c["kind"] in ("schema", "snap"):
             if not isinstance(c["name"], str) or not isinstance(c["aliases"], list) or not all(isinstance(a, str) for a in c["aliases"]):
                 return False
             if not (c["pk"] is None or isinstance(c["pk"], str)):
@@ -506,11 +730,27 @@ def valid_case(c):
                 return False
             if c["kind"] != "init":
                 construct(sp)  # the original must be constructible
-        if c["kind"] == "flat2":
+        if c["kind"] in ("flat2", "json2"):
             if not isinstance(c.get("then"), dict) or not c["then"] or not all(k in MUTABLE for k in c["then"]):
                 return False
             if not valid_case({"kind": "flat", "col": dict(c["col"], **c["then"])}):
                 return False
+        if c["kind"] == "snap":
+            e = c.get("edit")
+            if not isinstance(e, dict) or not e or not set(e) <= EDIT_KEYS:
+                return False
+            for k in ("aliases_append", "name", "col_alias_append"):
+                if k in e and not isinstance(e[k], str):
+                    return False
+            if "pk" in e and not (e["pk"] is None or isinstance(e["pk"], str)):
+                return False
+            if "col" in e and not (isinstance(e["col"], int) and not isinstance(e["col"], bool) and 0 <= e["col"]):
+                return False
+            if "then" in e:
+                if "col" not in e or e["col"] >= len(specs) or not isinstance(e["then"], dict) or not all(k in MUTABLE for k in e["then"]):
+                    return False
+                if not valid_case({"kind": "flat", "col": dict(specs[e["col"]], **e["then"])}):
+                    return False
         return True
     except Exception:
         return False
@@ -553,8 +793,13 @@ def evaluate(ctx, cases):
     open_known = [k for k in ctx.known if k.get("status") == "open"]
     for i, c in enumerate(cases):
         fails, impl, op = runs[i]
-        specs = c["cols"] if c["kind"] == "schema" else [c["col"]]
+        specs = c["cols"] if c["kind"] in ("schema", "snap") else [c["col"]]
         ctx.case(c, nontrivial=len(specs) > 0)
+        if c["kind"] == "snap":
+            for k in c["edit"]:
+                ctx.hit("edit:" + k)
+        if op is None and impl is None and not fails and c["kind"] in ("snap", "json2"):
+            ctx.hit("sequence-skipped:plain-round-trip-differs(%s)" % c["kind"])
         ctx.hit("kind:" + c["kind"])
         for sp in specs:
             ctx.hit("class:" + sp.get("cls", "FlatColumn"))
@@ -604,8 +849,10 @@ def evaluate(ctx, cases):
                         ctx.disagree(c, impl[0], m[0], "restored schema differs from the model's")
                     elif not wire.same(_plain(impl[1]), m[1]):
                         ctx.disagree(c, impl[1], m[1], "what validate reads of the restored schema differs from the model's")
-                    elif impl[2] is not None and not wire.same(_plain(impl[2]), m[2]):
+                    elif len(impl) > 2 and impl[2] is not None and not wire.same(_plain(impl[2]), m[2]):
                         ctx.disagree(c, impl[2], m[2], "description of the restored schema differs from the model's")
+        elif op is None and impl is None:
+            pass
         elif op is None:
             # from_dict raised
             if m[0][0] != "err" or m[0][1] != impl[1]:
@@ -774,9 +1021,11 @@ def exhaustive_cases(ctx):
     # an ARRAY column whose element type is given by keyword: every member, including the ones the ARRAY<T>
     # name form cannot express (ARRAY, DECIMAL, untyped) - seeded change C16-w2s1
     for form in (["member", "ARRAY"], ["text", "ARRAY"], ["text", "LIST"], ["text", "ARRAY<INTEGER>"]):
-        for et in ELEMENT_MEMBERS:
+        # ... and element types given as literals: a name, a lower-case name, the int 0 / '0' / 'VARIANT' (stored as the int 0)
+        for ets in [["member", et] for et in ELEMENT_MEMBERS] + [["text", "INTEGER"], ["text", "varchar"], ["text", "0"], ["int0"],
+                                                                  ["text", "VARIANT"]]:
             for toggles in ([], ["aliases", "non-nullable"]):
-                sp = dict(column_spec("e", form, "ARRAY", toggles), element_type=["member", et])
+                sp = dict(column_spec("e", form, "ARRAY", toggles), element_type=ets)
                 yield {"kind": "schema", "name": "t", "aliases": [], "pk": None, "cols": [sp], "records": [{"e": "none"}, {}]}
                 yield {"kind": "json", "col": sp}
                 yield {"kind": "flat", "col": sp}
@@ -793,6 +1042,75 @@ def exhaustive_cases(ctx):
                 then = {k: sp2[k] for k in MUTABLE if k in sp2 and sp2[k] != sp.get(k)}
                 if then:
                     yield {"kind": "flat2", "col": sp, "then": then}
+    # sequences on one schema / one column: write, load, modify, load again (state shared between the written form, the
+    # schema and the restored schema; loaders that remember an earlier result)
+    edits = [
+        {"aliases_append": "later"}, {"pk": "other"}, {"name": "renamed"}, {"col": 0, "col_alias_append": "later"},
+        {"col": 0, "then": None}, {"drop_last": True},
+        {"aliases_append": "later", "pk": None, "name": "", "col": 0, "col_alias_append": "x", "then": None, "drop_last": True},
+    ]
+    for fi, (form, base) in enumerate(forms):
+        if not thorough and fi % 2:
+            continue
+        for ei, e in enumerate(edits):
+            t0 = [TOGGLES, ["aliases"], [], ["statistics", "aliases"]][(fi + ei) % 4]
+            sp = column_spec("s", form, base, t0, pick=fi)
+            sp2 = column_spec("s", form, base, ["statistics", "description", "non-nullable"], pick=fi + 1)
+            then = {k: sp2[k] for k in MUTABLE if k in sp2 and sp2[k] != sp.get(k)}
+            e = dict(e)
+            if "then" in e:
+                e["then"] = then
+                if not then:
+                    del e["then"]
+            other = column_spec("o", ["member", "INTEGER"], "INTEGER", ["aliases"], pick=fi)
+            yield {"kind": "snap", "name": "t", "aliases": ["tt"] if ei % 2 else [], "pk": "s" if ei % 3 == 0 else None,
+                   "cols": [sp, other] if ei % 2 == 0 else [sp], "records": [], "edit": e}
+        for t0 in ([], TOGGLES, ["default", "aliases"]):
+            sp = column_spec("j", form, base, t0, pick=fi)
+            sp2 = column_spec("j", form, base, ["description", "non-nullable", "aliases"], pick=fi + 1)
+            then = {k: sp2[k] for k in MUTABLE if k in sp2 and sp2[k] != sp.get(k)}
+            if then:
+                yield {"kind": "json2", "col": sp, "then": then}
+    # boundaries: declared parameters exactly 0 and at the DECIMAL limits given by keyword (written next to a bare type
+    # name); integers at the edges of what JSON carries
+    for form in (["member", "DECIMAL"], ["text", "DECIMAL"], ["text", "decimal"]):
+        for p, sc in ((0, 0), (1, 0), (12, 0), (28, 0), (29, 0), (38, 0), (38, 38), (28, 21), (1, 1), (100, 0), (0, 5)):
+            sp = dict(column_spec("b", form, "DECIMAL", []), precision=p, scale=sc)
+            yield {"kind": "schema", "name": "t", "aliases": [], "pk": None, "cols": [sp], "records": [{"b": "none"}]}
+            yield {"kind": "json", "col": sp}
+            yield {"kind": "flat", "col": sp}
+        for only in ({"precision": 0}, {"scale": 0}, {"precision": 12}, {"scale": 3}):
+            sp = dict(column_spec("b", form, "DECIMAL", []), **only)
+            yield {"kind": "schema", "name": "t", "aliases": [], "pk": None, "cols": [sp], "records": []}
+            yield {"kind": "json", "col": sp}
+            yield {"kind": "flat", "col": sp}
+    for form, base in ((["member", "VARCHAR"], "VARCHAR"), (["text", "BLOB"], "BLOB"), (["member", "INTEGER"], "INTEGER"), ("absent", None)):
+        for n in (0, 1, 2**31, 2**63 - 1, 2**63, 2**64 - 1, 2**64):
+            for k in ("length", "null_count"):
+                sp = dict(column_spec("b", form, base, []), **{k: n})
+                yield {"kind": "schema", "name": "t", "aliases": [], "pk": None, "cols": [sp], "records": []}
+                yield {"kind": "json", "col": sp}
+                yield {"kind": "flat", "col": sp}
+    # defaults at the edge of what the DECIMAL cast keeps (28 / 29 / 38 significant digits), given as text and as Decimal
+    for form in (["member", "DECIMAL"], ["text", "DECIMAL"], ["text", "DECIMAL(38,21)"], ["text", "DECIMAL(10,2)"]):
+        for dv in ("1234567.123456789012345678901", "12345678.123456789012345678901", "0.1", "1e-21", "99999999999999999.999999999999999999999",
+                   py("Decimal", "12345678.123456789012345678901"), py("Decimal", "-0.000000000000000000001")):
+            sp = dict(column_spec("b", form, "DECIMAL", []), default=dv)
+            yield {"kind": "schema", "name": "t", "aliases": [], "pk": None, "cols": [sp], "records": []}
+            yield {"kind": "flat", "col": sp}
+            yield {"kind": "flat", "col": dict(sp, cls="ConstantColumn")}
+    # temporal defaults with a sub-second part / given as another temporal class, through every route
+    for form, base, dvs in ((["text", "TIMESTAMP"], "TIMESTAMP", [py("datetime", "2024-02-29T23:59:59.999999"), "2024-02-29T23:59:59.999999",
+                                                                 py("date", "2024-02-29")]),
+                            (["text", "DATE"], "DATE", [py("datetime", "2024-02-29T23:59:59.999999"), "2024-02-29 23:59"]),
+                            (["text", "TIME"], "TIME", [py("time", "23:59:59.999999"), py("time", "00:00:00"), py("time", "12:30:00"),
+                                                        py("datetime", "2024-02-29T23:59:59.999999"), "2024-02-29 23:59:59"])):
+        for dv in dvs:
+            sp = dict(column_spec("b", form, base, []), default=dv)
+            yield {"kind": "schema", "name": "t", "aliases": [], "pk": None, "cols": [sp], "records": []}
+            yield {"kind": "json", "col": sp}
+            yield {"kind": "flat", "col": sp}
+            yield {"kind": "json2", "col": sp, "then": {"nullable": False}}
     # the constructor: raw keyword arguments inside the modelled domain
     for fi, (form, base) in enumerate(forms):
         for toggles in ([], ["aliases", "description", "non-nullable"], ["disposition"], ["statistics"]):
@@ -848,14 +1166,42 @@ def random_column(rng, name, forms):
 def random_case(ctx, forms):
     rng = ctx.rng
     r = rng.random()
-    if r < 0.45:
+    if r < 0.42:
         n = rng.choice([0, 1, 1, 2, 3, 4, 5])
         names = rng.sample(NAMES, n)
         cols = [random_column(rng, nm, forms) for nm in names]
         return {"kind": "schema", "name": rng.choice(["t", "", "schema é", "a.b"]), "aliases": [rng.choice(NAMES) for _ in range(rng.choice([0, 0, 1, 2]))],
                 "pk": rng.choice([None, None, "a", names[0] if names else "zz", ""]), "cols": cols, "records": records_for(cols, rng, 3)}
+    if r < 0.53:
+        n = rng.choice([1, 1, 2, 3])
+        names = rng.sample(NAMES, n)
+        cols = [random_column(rng, nm, forms) for nm in names]
+        edit = {}
+        if rng.random() < 0.5:
+            edit["aliases_append"] = rng.choice(NAMES)
+        if rng.random() < 0.4:
+            edit["pk"] = rng.choice([None, "zz", names[-1]])
+        if rng.random() < 0.3:
+            edit["name"] = rng.choice(["", "renamed"])
+        if rng.random() < 0.6:
+            i = rng.randrange(n)
+            edit["col"] = i
+            sp2 = random_column(rng, names[i], [(cols[i].get("type", "absent"), _base_of(cols[i].get("type", "absent"), forms))])
+            then = {k: sp2[k] for k in MUTABLE if k in sp2 and sp2[k] != cols[i].get(k)}
+            if then:
+                edit["then"] = then
+            if rng.random() < 0.5:
+                edit["col_alias_append"] = rng.choice(NAMES)
+        if rng.random() < 0.3 or not edit:
+            edit["drop_last"] = True
+        return {"kind": "snap", "name": rng.choice(["t", "", "schema é"]), "aliases": [rng.choice(NAMES) for _ in range(rng.choice([0, 1, 2]))],
+                "pk": rng.choice([None, names[0], ""]), "cols": cols, "records": [], "edit": edit}
     sp = random_column(rng, rng.choice(NAMES), forms)
-    if r < 0.7:
+    if r < 0.62:
+        sp2 = random_column(rng, sp["name"], [(sp.get("type", "absent"), _base_of(sp.get("type", "absent"), forms))])
+        then = {k: sp2[k] for k in MUTABLE if k in sp2 and sp2[k] != sp.get(k)}
+        return {"kind": "json2", "col": sp, "then": then} if then else {"kind": "json", "col": sp}
+    if r < 0.74:
         return {"kind": "json", "col": sp}
     sp["cls"] = rng.choice(COLUMN_CLASSES)
     if r < 0.85:
@@ -870,10 +1216,7 @@ def _run_batched(ctx, it, size=1500):
     for c in it:
         if c["kind"] != "init":
             try:
-                for sp in (c["cols"] if c["kind"] == "schema" else [c["col"]]):
-                    construct(sp)
-                if c["kind"] == "flat2":
-                    construct(dict(c["col"], **c["then"]))  # the donor of the assigned attributes
+                _construct_all(c)
             except Exception as e:
                 # the original cannot be constructed (e.g. a default the type's cast refuses): not a C16 input
                 ctx.hit("skipped:not-constructible:" + type(e).__name__)
@@ -896,7 +1239,12 @@ def check_tables(ctx):
     o = ctx.model.one("C16 tables")
     if not o.startswith("ok "):
         raise InfraError("model tables: %r" % o)
-    col_fields, schema_fields, flat, restores, disps, td, tj = wire.dec_all(o[3:])
+    col_fields, schema_fields, flat, restores, disps, td, tj, rules, fills, dfills, written, cloader, jloader = wire.dec_all(o[3:])
+    ctx.note("extracted_statements", {
+        "FlatColumn.from_dict rules (conditions, key assigned, member)": rules,
+        "__init__ fills from the parsed type name (attribute, guard, parsed field)": fills,
+        "__init__ DECIMAL default guards": dfills, "_converter writes an enum's": written,
+        "RelationSchema.from_dict loads a column with": cloader, "from_json loads with": jloader})
     live = [f.name for f in dataclasses.fields(S.FlatColumn)]
     ctx.note("extracted_column_fields", col_fields)
     ctx.note("extracted_flat_kwargs", [p[0] for p in flat])
@@ -911,13 +1259,16 @@ def check_tables(ctx):
 
 
 def run(ctx):
-    ctx.note("rule", "one schema (dict round trip + behaviour), one column through JSON, one column flattened, or one constructor call per "
-             "case; non-trivial = at least one column; distinct by canonical JSON of the case")
+    ctx.note("rule", "one schema (dict round trip + behaviour), one column through JSON, one column flattened, one constructor call, or one "
+             "sequence on one object (flatten-assign-flatten, write-load-modify-load again) per case; non-trivial = at least one column; "
+             "distinct by canonical JSON of the case")
     ctx.note("assumptions", [
         "columns carry no expectations (the statement does not list them; the suite's own persistence test strips them)",
         "defaults and statistics are values of the column type's natural class (C07's casts are identities on them)",
         "JSON: defaults are compared after the type's cast of their JSON rendering; non-finite floats, bytes, Decimal, timedelta, "
-        "integers beyond 64 bits and temporal statistics are not carried by JSON (open findings K01, K02, K04)",
+        "integers beyond 64 bits and temporal statistics are not carried by JSON (open findings K01, K02)",
+        "sequences (snap, json2): the schema / column is modified in place and by assignment with values of a donor column built by the "
+        "constructor; a sequence whose plain round trip already differs (K01, K02) is skipped and counted",
     ])
     ctx.note("trusted_base_extra", [
         "the vocabulary Constructed / Persistable / JsonNative / DefaultSurvivesJson in lean/OrsoVerif/Model/Persist.lean (the theorems are stated through them)",
@@ -931,7 +1282,8 @@ def run(ctx):
              "BLOB[n], ARRAY<T> for every scalar T, LIST/NUMERIC/BSON) x subsets of {aliases, default, description, disposition, statistics, "
              "non-nullable} (all 64 in the thorough tier; none, each single, all and a quarter of the rest in the quick tier) through "
              "to_dict/from_dict, to_json/from_json and to_flatcolumn; every default and statistic of the per-type pools; the six column "
-             "classes for flattening; constructor calls inside the modelled domain (%d cases), then random schemas"
+             "classes for flattening; keyword element types; sequences on one schema / column; boundaries (declared 0, 2^63 / 2^64, 28/29-digit "
+             "decimals, sub-second temporals); constructor calls inside the modelled domain (%d cases), then random schemas and sequences"
              % (len(type_forms(ctx.tier == "thorough")), total))
     forms = type_forms(True)
     n = ctx.scale(6000, 120000)
@@ -941,12 +1293,19 @@ def run(ctx):
         done += 1000
 
 
+def _construct_all(c):
+    specs = c["cols"] if c["kind"] in ("schema", "snap") else [c["col"]]
+    for sp in specs:
+        construct(sp)
+    if c["kind"] in ("flat2", "json2"):
+        construct(dict(c["col"], **c["then"]))  # the donor of the assigned attributes
+    if c["kind"] == "snap" and c["edit"].get("then"):
+        construct(dict(specs[c["edit"]["col"]], **c["edit"]["then"]))
+
+
 def _constructible(c, ctx):
     try:
-        for sp in (c["cols"] if c["kind"] == "schema" else [c["col"]]):
-            construct(sp)
-        if c["kind"] == "flat2":
-            construct(dict(c["col"], **c["then"]))  # the donor of the assigned attributes
+        _construct_all(c)
         return True
     except Exception as e:
         ctx.hit("skipped:not-constructible:" + type(e).__name__)
@@ -1014,52 +1373,7 @@ def k02_json_changes_value(case, failure):
     return False
 
 
-def k03_array_without_element(case, failure):
-    """an ARRAY column whose element type is None is restored with element type VARCHAR (and is then described as ARRAY<VARCHAR>)"""
-    from orso.types import OrsoTypes
-
-    d = failure.get("detail") or {}
-    if failure["clause"] == "dict: the restored schema reports another description" and case.get("kind") == "schema":
-        o, g = d.get("orig"), d.get("got")
-        if not (isinstance(o, list) and isinstance(g, list) and o[0] == "ok" and g[0] == "ok" and len(o[1]) == len(g[1])):
-            return False
-        cols = [construct(sp) for sp in case["cols"]]
-        by_name = {}
-        for c in cols:
-            by_name.setdefault(c.name, c)  # description looks columns up by name: the first one wins
-        changed = 0
-        for a, b in zip(o[1], g[1]):
-            if list(a) == list(b):
-                continue
-            c = by_name.get(a[0])
-            if c is None or not (c.type is OrsoTypes.ARRAY and c.element_type is None):
-                return False
-            if not (a[1] == "ARRAY" and b[1] == "ARRAY<VARCHAR>" and list(a[2:]) == list(b[2:]) and a[0] == b[0]):
-                return False
-            changed += 1
-        return changed > 0
-    if d.get("attr") != "element_type" or d.get("op") not in ("dict", "json"):
-        return False
-    if failure["clause"] != "%s: column attribute element_type differs after the round trip" % d["op"]:
-        return False
-    sp = case["cols"][d["col"]] if case.get("kind") == "schema" else case["col"]
-    c = construct(sp)
-    return c.type is OrsoTypes.ARRAY and c.element_type is None and d.get("got") == show(OrsoTypes.VARCHAR)
-
-
-def k04_time_default_json(case, failure):
-    """a TIME column's default is written as 'HH:MM:SS', which from_json's cast refuses"""
-    if case.get("kind") != "json" or failure["clause"] != "json: from_json(to_json(column)) raised ValueError":
-        return False
-    c = construct(case["col"])
-    from orso.types import OrsoTypes
-
-    return c.type is OrsoTypes.TIME and isinstance(c.default, datetime.time)
-
-
 KNOWN_PREDICATES = {
     "k01_to_json_typeerror": k01_to_json_typeerror,
     "k02_json_changes_value": k02_json_changes_value,
-    "k03_array_without_element": k03_array_without_element,
-    "k04_time_default_json": k04_time_default_json,
 }
